@@ -35,8 +35,12 @@ OnDisk(img, e) == \A i \in 1..Len(e.chain) :
                      /\ c.size = img[c.s + 1].pay
                      /\ c.next = img[c.s + 1].next
                      /\ c.next = (IF i < Len(e.chain) THEN e.chain[i + 1].s ELSE 0 - 1)
-\* "slot chain": all slots of the chain were written for one and the same key
-OneKey(img, e) == \A i \in 1..Len(e.chain) : img[e.chain[i].s + 1].key = img[e.start + 1].key
+\* "slot chain": all slots of the chain were written for the entry's key (the key the index reports).  For the inode
+\* slot rock itself takes the key from the swap metadata in the payload, so an inode whose metadata names the key counts too.
+OneKey(img, e) == \A i \in 1..Len(e.chain) :
+                     LET v == img[e.chain[i].s + 1] IN
+                     \/ v.key = e.key
+                     \/ e.chain[i].s = e.start /\ v.first = e.start /\ v.mok /\ v.mkey = e.key
 \* "complete": the chain begins with the entry's inode (the slot that says "I am the first slot")
 Anchored(img, e) == img[e.start + 1].first = e.start
 SizesAddUp(e) == SumSizes(e.chain, Len(e.chain)) = e.sfs
